@@ -312,7 +312,8 @@ def sched_str(faults, natural=None):
     allf = dict(natural or {})
     allf.update(faults)
     for k, f in sorted(allf.items()):
-        toks.append("%d:r:%s:%d" % (k, f[1], f[2]) if f[0] == "r" else "%d:d:%d" % (k, f[1]))
+        # the model distinguishes OSError / other Exception / BaseException: a PermissionError is an OSError
+        toks.append("%d:r:%s:%d" % (k, "o" if f[1] == "p" else f[1], f[2]) if f[0] == "r" else "%d:d:%d" % (k, f[1]))
     return " ".join(toks)
 
 
@@ -550,6 +551,17 @@ def explore_case(ctx, c, rng, stats, lines, pending, violations, subprocess_budg
         if k1 in natural or k2 in natural:
             continue
         one({k1: f1, k2: f2})
+    # the final rename failing with a SPECIFIC OSError (PermissionError), alone and followed by a second fault or by death
+    # at each of the next operations (a fallback path taken only for that error class shows up here)
+    if "replace" in ref["trace"]:
+        kr = ref["trace"].index("replace")
+        if kr not in natural:
+            one({kr: ("r", "p", 0)})
+            for k2 in (kr + 1, kr + 2):
+                for f2 in (("r", "o", 0), ("d", 0), ("d", 1)):
+                    if violations:
+                        return
+                    one({kr: ("r", "p", 0), k2: f2})
     if subprocess_budget[0] > 0 and n and not no_model:
         subprocess_budget[0] -= 1
         k = rng.randrange(n)
